@@ -588,7 +588,10 @@ impl Xot {
         if !self.is_element(node) {
             return Err(Error::NotElement(node));
         };
-        let mut fullname_serializer = FullnameSerializer::new(self, vec![]);
+        // what is in scope at the node counts as declared (the xml prefix
+        // always is), just as it does when the node is serialized
+        let mut fullname_serializer =
+            FullnameSerializer::new(self, self.namespaces_in_scope(node).collect());
         let mut missing_namespace_ids = HashSet::default();
         // the prefixes that are taken: a new declaration with one of these
         // would override a binding in scope, or be shadowed further down
